@@ -6,6 +6,7 @@ yields one flat transition record
     out: {"ok": <Obs>} | {"exc": type}, reparse: ..., twin: ..., prog, step}
 
 which is exactly one action of the YarlValue state machine, observed on the real code."""
+import sys
 import copy
 import pickle
 
@@ -304,7 +305,46 @@ def run_prog(prog, fields=None, extras=()):
     return recs
 
 
+def _quiet(prog):
+    """the program, outcomes discarded (used under injected faults)"""
+    try:
+        u = None
+        for st in prog:
+            other = _create(st["ref"]) if st["op"] == "join" and st["ref"]["op"] in CREATORS else None
+            u = _create(st) if st["op"] in CREATORS else _apply(u, st, other)
+        str(u)
+    except BaseException as e:  # noqa: BLE001 - whatever a fault turns into is not what is observed here
+        if isinstance(e, (KeyboardInterrupt, SystemExit)):
+            raise
+
+
+def _stack_depth():
+    f, n = sys._getframe(), 0
+    while f:
+        n, f = n + 1, f.f_back
+    return n
+
+
+def fault_history(prog):
+    """FAILED CALLS ARE HISTORY TOO: before the program is observed it is executed (outcomes discarded) with only
+    m = 1..60 stack frames left, so that a RecursionError is raised at every depth the call chain reaches.  Nothing such an
+    attempt leaves behind (module caches, shared objects) may change what the observed run returns.
+    (Allocation failures are injected only around the compiled quoter -- vlib/allocfault.py: _testcapi.set_nomemory over
+    arbitrary Python-level code crashes this interpreter itself, with every extension module disabled.)"""
+    old = sys.getrecursionlimit()
+    for m in range(1, 61):
+        try:
+            sys.setrecursionlimit(_stack_depth() + m + 1)
+            _quiet(prog)
+        except RecursionError:
+            pass
+        finally:
+            sys.setrecursionlimit(old)
+
+
 def execute_all(call):
+    if "faulted" in call.get("extras", ()):
+        fault_history(call["prog"])
     recs = run_prog(call["prog"], call.get("fields"), call.get("extras", ()))
     for r in recs:
         r["tag"] = call.get("tag", "")
